@@ -6,8 +6,16 @@ M = json.load(open(f"{V}/seeded/matrix.json"))
 print("| change | what it does (from its meta.json) | obligation(s) of its own property that fail | also reported by |")
 print("|---|---|---|---|")
 missed = []
+harmless_ok = True
 for m in sorted(M):
     if not os.path.isdir(f"{V}/seeded/{m}") or m == "retired":
+        continue
+    if m.startswith("harmless"):
+        r = M[m]
+        alarms = [p for p in sorted(r) if r[p].get("exit") == 1]
+        und = [f"{p}:exit{r[p]['exit']}" for p in sorted(r) if r[p].get("exit") not in (0, 1)]
+        print(f"| {m} | behaviour-preserving edits (must NOT be reported) | {'no check reports it (all exit 0)' if not alarms and not und else 'ALARM: ' + ' '.join(alarms + und)} | - |")
+        harmless_ok = harmless_ok and not alarms and not und
         continue
     own = m[:3]
     try:
@@ -24,4 +32,5 @@ for m in sorted(M):
     bad = " ".join(f"{p}:exit{r[p]['exit']}" for p in sorted(r) if r[p].get("exit") not in (0, 1))
     print(f"| {m} | {summ} | {obl} | {others}{(' (undecided/fault: ' + bad + ')') if bad else ''} |")
 print()
-print(f"{len(M)} changes; reported by their own property's check: {len(M) - len(missed)}; not reported: {missed}")
+n_mut = sum(1 for m in M if not m.startswith("harmless") and os.path.isdir(f"{V}/seeded/{m}"))
+print(f"{n_mut} seeded changes; reported by their own property's check (exit 1): {n_mut - len(missed)}; not reported: {missed}; harmless-edit sets raise no alarm: {harmless_ok}")
